@@ -97,7 +97,7 @@ def run_check(prop, tier='quick', seed=0, jobs=None, verbose=False):
     tus = sorted({S.REGISTRY[k].tu for k in keys})
     with mp.Pool(min(len(tus), 16) or 1) as pool:
         pool.map(astdb.load_tu_quiet, tus)
-    with mp.Pool(jobs) as pool:
+    with mp.Pool(jobs, maxtasksperchild=1) as pool:
         results = pool.map(_work, [(k, seed, timeout_ms, known) for k in keys], chunksize=1)
     return finish(prop, tier, seed, results, known, time.time() - t0, verbose)
 
